@@ -6,6 +6,7 @@ import struct
 
 from .. import common
 from ..common import log
+from . import c09_floats
 
 SLOT = 0x400
 NSLOT = 60
@@ -724,21 +725,37 @@ def run(args):
             if kv["model"] != "eq":
                 corr_fail.append(dict(tag=kinds, target=t["name"], source=c["source"], why="real output differs from the Lean model: real=%s model=%s" % (
                     "ERR" if c["real"] == "ERR" else [(o, b.hex()) for o, b in c["real"]], kv.get("mout", "?")), request=rq))
+        # floating-point encodings (half, extended, IBM hexadecimal, TMS320C3x): vlib/props/c09_floats.py
+        import sys as _sys
+        fl = c09_floats.run_part(_sys.modules[__name__], args, bdir, wd, ok)
+        spec_fail += fl["spec_fail"]
+        corr_fail += fl["corr_fail"]
+        proof_problems += fl["problems"]
+        evaluations += fl["evaluations"]
+        distinct |= fl["distinct"]
+        dist.update(fl["dist"])
+        stats.update(fl["stats"])
+        samples += fl["samples"]
+        known_hits.update(fl["known_hits"])
     # a spec failure of a known class must still agree with the (bug-compatible) model; otherwise it is new
     res.coverage = common.proof_coverage(audit, "C09", [
         "translate/tables.py gen_inttypes (IntTypeDefs[] after asmpars_init via a dumper linked with the assembler's objects; enum names via clang AST)",
         "correspondence: real asl vs Model/Data.lean on generated statements (differential test)",
+        "correspondence: real asl vs Model/Floats.lean on single float constants per target format (half, x87/68881 extended, IBM hex short/long, TMS320C3x short/single/extended)",
         "C cast double->float assumed IEEE round-to-nearest-even (checked against the spec on every DC.S/DD case)",
         "decimal->double conversion of the assembler (float literals are printed with 17 significant digits)"])
     res.coverage.update(
         evaluations=evaluations, distinct_nontrivial=len(distinct),
         rule="one evaluation = one ORG-separated slot of 1-3 data statements + sentinel byte on one of 7 target configurations, compared cell by cell "
-             "(address, byte) with the Lean model and with the Lean specification; non-trivial = lays at least two cells or is rejected; distinct by request line",
+             "(address, byte) with the Lean model and with the Lean specification; non-trivial = lays at least two cells or is rejected; distinct by request line; "
+             "plus (float part) one evaluation = one float constant in one target format, emitted bits vs Model/Floats.lean and decoded value vs the format's nearest-even rounding, distinct by (format, double)",
         samples=samples, distribution=dict(sorted(dist.items())), generator=dict(sorted(stats.items())),
         probes=probes, spec_failures_by_signature={str(k): v for k, v in known_hits.items()})
     res.assumptions = ["expression evaluation (C08) is outside: arguments are literals; integer values are wrapped to 64 bit before the model sees them",
                        "identity character map; double-quoted strings only",
-                       "values in the gaps between the assembler's float limits (65504, 3.4e38, 1.7e308) and the formats' true limits are not generated"]
+                       "values in the gaps between the assembler's float limits (65504, 3.4e38, 1.7e308) and the formats' true limits are not generated",
+                       "NaN inputs: only the quiet NaN that `1e400-1e400` evaluates to (no other NaN can be written in source text)",
+                       "EFLOAT/BFLOAT/TFLOAT/Qxx/LQxx (frexp/ldexp/modf of libm), DC.P packed decimal (printf %.16e) and the uPD77230 format are not modelled"]
     return common.conclude(res, proof_problems, spec_fail, corr_fail, evaluations)
 
 
@@ -768,5 +785,5 @@ def replay(args):
                 print("".join(open(lst, errors="replace").readlines()[3:14]))
     if "request" in d:
         common.lean_build(["asldrv"])
-        print(common.driver("c09", [d["request"]])[0][:1000])
+        print(common.driver(d.get("mode", "c09"), [d["request"]])[0][:1000])
     return 0
